@@ -70,7 +70,10 @@ Expected(e) == [e EXCEPT !.snap = [f \in DOMAIN e.snap \ {"lk", "lv"} |-> e.snap
 
 \* C15 on Layer I: contains_key and iter leave the state unchanged up to the work every
 \* other call performs first anyway (purging what is expired, restoring the capacity bound)
-Pure(o, st, st2) == o.op \in {"Contains", "Iter"} => Prelude(st2) = Prelude(st)
+\* and what iteration yields is the same before and after (the call removes nothing that was
+\* observable: with F13 repaired the cache is never left above its capacity between calls)
+Pure(o, st, st2) == o.op \in {"Contains", "Iter"} =>
+                       (Prelude(st2) = Prelude(st) /\ IterItems(st2) = IterItems(st))
 
 Init == /\ \E c \in Cfgs : s = UInit(c) /\ hs = M!HInit(c)
         /\ bad = {}
